@@ -600,6 +600,8 @@ class WeightedBipartiteMatcher(Bounded, Generic[T]):
         }
         self._edges: Optional[List[List[Optional[Bounded]]]] = None
         self._match: Optional[Mapping[T, Tuple[T, Bounded]]] = None
+        # The matched (from_node, to_node, edge) triples; unlike `_match` this keeps equal (duplicate) nodes apart
+        self._matched_edges: List[Tuple[T, T, Bounded]] = []
         self._edges_are_distinct: bool = False
         self.get_edge = get_edge
         self._bounds: Optional[Range] = None
@@ -634,7 +636,7 @@ class WeightedBipartiteMatcher(Bounded, Generic[T]):
             else:
                 lb = 0
                 ub = 0
-                for _, (_, edge) in self._match.items():
+                for _, _, edge in self._matched_edges:
                     lb += edge.bounds().lower_bound
                     ub += edge.bounds().upper_bound
             ret = Range(lb, ub)
@@ -673,19 +675,33 @@ class WeightedBipartiteMatcher(Bounded, Generic[T]):
 
             self._make_edges_distinct()
 
-            def get_edges(from_node, to_node):
-                edge = self.edges[self.from_node_indexes[from_node]][self.to_node_indexes[to_node]]
+            def get_edges(from_index, to_index):
+                edge = self.edges[from_index][to_index]
                 if edge is None:
                     return None
                 else:
                     return edge.bounds().upper_bound
 
-            mwbp = min_weight_bipartite_matching(self.from_nodes, self.to_nodes, get_edges)
-            self._match = {
-                self.from_nodes[from_node]: (self.to_nodes[to_node], self.edges[from_node][to_node])
+            # match by index rather than by node so that equal (duplicate) nodes are not conflated
+            mwbp = min_weight_bipartite_matching(range(len(self.from_nodes)), range(len(self.to_nodes)), get_edges)
+            self._matched_edges = [
+                (self.from_nodes[from_node], self.to_nodes[to_node], self.edges[from_node][to_node])
                 for from_node, (to_node, _) in mwbp.items()
+            ]
+            self._match = {
+                from_node: (to_node, edge) for from_node, to_node, edge in self._matched_edges
             }
         return self._match
+
+    def matched_edges(self) -> List[Tuple[T, T, Bounded]]:
+        """Returns the minimum weight matching as a list of (from_node, to_node, edge) triples.
+
+        Unlike :attr:`WeightedBipartiteMatcher.matching`, which is keyed by node, this retains every matched pair even
+        if some of the nodes are equal to each other (*e.g.*, duplicate items in a multiset).
+
+        """
+        _ = self.matching
+        return self._matched_edges
 
     def is_complete(self) -> bool:
         """Whether the matching has been completed, regardless of whether the bounds have been fully tightened."""
@@ -703,7 +719,7 @@ class WeightedBipartiteMatcher(Bounded, Generic[T]):
                 return True
             _ = self.matching     # This computes the minimum weight matching
             return True
-        for (_, (_, edge)) in self.matching.items():
+        for _, _, edge in self.matched_edges():
             if edge.tighten_bounds():
                 return True
         return False
